@@ -489,8 +489,8 @@ Proof.
   replace (wr_batch a (len d) =? 0) with false by lia.
   destruct (run_cmds_budget (t3_plan a d) t P1 (wf_rw t a W)) as (t' & Hs & Hrun & Hlog).
   cbv zeta in Hrun. destruct ((p_budget t <? 0) || (Z.of_nat (length (t3_plan a d)) <=? p_budget t)) eqn:E.
-  - destruct Hrun as (R1 & R2 & R3). exists t', (Ok tt). rewrite R1, R2, P3. repeat split; auto.
-  - destruct Hrun as (R1 & R2). exists t', (Err (TagCommandError 0)). rewrite R1, R2. repeat split; auto.
+  - destruct Hrun as (R1 & R2 & R3). exists t', (Ok tt). rewrite R1, R2, P3. repeat split; auto; apply Hs.
+  - destruct Hrun as (R1 & R2). exists t', (Err (TagCommandError 0)). rewrite R1, R2. repeat split; auto; apply Hs.
 Qed.
 
 (* ------------------------------------------------------------ a fresh reader on the final memory *)
@@ -512,15 +512,17 @@ Proof.
     apply attr_roundtrip. destruct (wf_aok t a W) as (? & ? & ? & ? & ? & ? & ?). unfold a2, attrs_ok. cbn. lia. }
   destruct W.
   rewrite (read_ndef_pt _ a2); cbn [p_mem p_budget p_maxr fst]; auto; try (unfold a2; cbn; lia).
-  - unfold a2 at 3 4. cbn [a_ln set_ln].
+  - change (a_ln a2) with (len d). change (a_nmaxb a2) with (a_nmaxb a).
     assert (Hs : slice (final_mem a d (p_mem t)) 16 (16 * (1 + (len d + 15) / 16)) = pad16 d).
     { rewrite slice_take_drop by lia. unfold final_mem, attr_final. fold a2.
-      change 16 with (len (attr_build a2)) at 2. rewrite drop_app_len.
-      replace (16 * (1 + (len d + 15) / 16) - 16) with (len (pad16 d)) by lia. apply take_app_len. }
+      set (A2 := attr_build a2). set (R := drop (16 + len (pad16 d)) (p_mem t)).
+      assert (E : drop 16 (A2 ++ pad16 d ++ R) = pad16 d ++ R) by (change 16 with (len A2); apply drop_app_len).
+      rewrite E. replace (16 * (1 + (len d + 15) / 16) - 16) with (len (pad16 d)) by lia. apply take_app_len. }
     rewrite Hs, pad16_take. unfold attr_readable, attr_writeable, a2. cbn [a_writef a_nbr a_rwflag a_nbw a_nmaxb set_ln set_writef].
     replace ((0 =? 0) && (0 <? a_nbr a)) with true by lia.
     replace (negb (a_rwflag a =? 0) && (0 <? a_nbw a)) with true by lia. reflexivity.
-  - lia.
+  - change (a_ln a2) with (len d). lia.
+  - change (a_ln a2) with (len d). lia.
 Qed.
 
 (* ------------------------------------------------------------ C01 *)
